@@ -183,14 +183,30 @@ def check_layer(A, rep):
             owner, v = A.model.lookup(cls, "_flush")
             seen.setdefault(v.func, cls)
     for func, cls in seen.items():
-        b, g = A.graph(cls, "_flush", "root", "none", args=[Val("const", False)])
+      for force in (False, True):
+        b, g = A.graph(cls, "_flush", "root", "none", args=[Val("const", force)])
         saves = [n.id for n in live(g) if is_enter(n, "_save_to_resource")]
-        merges = [n.id for n in live(g) if is_enter(n, "_update") and recv_is_root_T(n) and cattr_origin_any(n["args"].get("data"))]
+        merges = [n.id for n in live(g) if is_leave(n, "_update") and recv_is_root_T(n) and len(n.stack) == 2]
+        merges_e = [n for n in live(g) if is_enter(n, "_update") and recv_is_root_T(n) and cattr_origin_any(n["args"].get("data"))]
         w = g.must_pass(g.entry, saves, merges)
-        if w is None and saves and merges:
-            rep.ok("C05.g", f"C05.g {func.qualname}: the entry's contents are merged into the object before the file is written")
+        if w is None and saves and merges and merges_e:
+            rep.ok("C05.g", f"C05.g {func.qualname} force={force}: the entry's contents are merged into the object before the file is written")
         else:
-            rep.fail("C05.g", norm_key("C05.g", func.qualname), f"{func.qualname} writes the object's own data without first merging the shared buffer entry's contents", g.witness(w or []), g.label)
+            rep.fail("C05.g", norm_key("C05.g", func.qualname, f"force={force}"), f"{func.qualname} (force={force}) writes the object's own data without first merging the shared buffer entry's contents (writes made through another object on the same file are lost)", g.witness(w or []), g.label)
+    # (h) serialized strategy: an object that saves without having loaded (destructive operation, file not yet
+    #     buffered) must record the hash of what is ON DISK as the entry's reference, on every path
+    for func_cls in seen.values():
+        cls = func_cls
+        b, g = A.graph(cls, "_save_to_buffer", "root", "obj")
+        inits = [n for n in live(g) if is_leave(n, "_initialize_data_in_buffer") and len(n.stack) == 2]
+        hashw = [n.id for n in live(g) if n.kind == "cs_write" and n["name"] == "_buffer" and n["op"] == "setitem" and n["index"] == Val("const", "hash") and len(n.stack) == 1
+                 and any(x.kind == "call" and str(x.args[0]).endswith("json.loads") or (x.kind == "call" and "open" in str(x.args[0])) for x in n["value"].walk())]
+        f = A.model.lookup(cls, "_save_to_buffer")[1].func
+        okh = bool(inits) and all(g.must_pass(i.id, [g.exit], hashw) is None for i in inits)
+        if okh:
+            rep.ok("C05.h", f"C05.h {f.qualname}: a save without prior load records the on-disk hash as the entry's reference on every path")
+        else:
+            rep.fail("C05.h", norm_key("C05.h", f.qualname), f"{f.qualname}: when the file is not yet buffered the entry's reference hash is not (always) replaced by the hash of the on-disk data: the flush then sees 'unchanged' and never writes the new content", [], g.label)
 
 
 def cattr_origin_any(v):
